@@ -475,6 +475,13 @@ def check(chk):
             tot = _fold_mult(r.ast.value)
             chk.ob("TABLE-3", "suffix %r multiplies by %s ms" % (suf, SI_MS.get(suf)), suf in SI_MS and tot == SI_MS[suf], f.where(r.ast),
                    detail="multiplier %s" % tot, construct=f.ident, text="multiplier %s for %s" % (tot, suf))
+            # value times unit, then rounded once: the int() is the outermost operation and every factor lies inside it (an int() around
+            # part of the product truncates a fractional value to a coarser unit first: 0.01m -> 0 instead of 600)
+            v_ = r.ast.value
+            outer_int = isinstance(v_, ast.Call) and isinstance(v_.func, ast.Name) and v_.func.id == "int" and len(v_.args) == 1
+            inner_ints = [y for y in ast.walk(v_.args[0]) if isinstance(y, ast.Call) and isinstance(y.func, ast.Name) and y.func.id in ("int", "round")] if outer_int else []
+            chk.ob("TABLE-3", "suffix %r: the value is scaled to milliseconds first and converted to int once, last" % suf, outer_int and not inner_ints, f.where(r.ast),
+                   detail=src(v_), construct=f.ident, text="rounding before scaling for %s" % suf)
     chk.expect(n_br >= 7, "C12: suffix branches of string_to_ms lost (%d)" % n_br)
     chk.ob("TABLE-3", "every accepted unit suffix has a branch", set(seen) >= set(SI_MS), f.where(), detail="branches: %s" % seen,
            construct=f.ident, text="suffix set")
@@ -705,6 +712,7 @@ def battery():
         M("some provided keys are returned unvalidated", CV, "            if k in source:  # validate the entry that exists\n", "            if k in source and k != 'debug':  # validate the entry that exists\n", "DOM-24"),
         M("keys named like templates are not validated", CV, "            if this_spec[k] == 'ignore' or k[0] == '_':\n                continue", "            if this_spec[k] == 'ignore' or k[0] == '_' or k.endswith('_events'):\n                continue", "DOM-24"),
         M("unknown keys of some sections are accepted", CV, "                if not isinstance(k, dict) and k not in spec and k[0] != '_':", "                if not isinstance(k, dict) and k not in spec and k[0] != '_' and len(spec) > 1:", "DOM-24"),
+        M("fractional minutes truncated to whole seconds before scaling", UT, "            return int(float(time_string[:-1]) * 60 * 1000)", "            return int(float(time_string[:-1]) * 60) * 1000", "TABLE-3"),
     ]
 
 
